@@ -103,11 +103,13 @@ func genDir(rt *rapid.T, label string, window int) DirScript {
 		Bufs:      rapid.SliceOfN(rapid.SampledFrom([]int{1, 2, 7, 100, 4096, 32768, 70000}), 1, 4).Draw(rt, label+".bufs"),
 		StopAfter: -1,
 	}
-	if window <= 7 {
-		// Tiny windows mean one message per few bytes; keep reads cheap too.
-		for i := range d.Bufs {
-			d.Bufs[i] = max(d.Bufs[i], 7)
-		}
+	// Bound the number of Read calls a direction needs (about 2000).
+	total := 0
+	for _, n := range d.Chunks {
+		total += n
+	}
+	for i := range d.Bufs {
+		d.Bufs[i] = max(d.Bufs[i], total/2000)
 	}
 	if rapid.IntRange(0, 3).Draw(rt, label+".pauses") == 0 {
 		d.PauseEvery = rapid.IntRange(1, 8).Draw(rt, label+".pause_every")
@@ -353,13 +355,13 @@ func TestSeqMachine(t *testing.T) {
 
 // --- C23 / C24: concurrent workload ------------------------------------------------
 
-func judgeWorkStable(c *WorkCase, wire bool, p string) *WorkResult {
-	r := JudgeWork(c, wire)
+func judgeWorkStable(c *WorkCase, wire, serial bool, p string) *WorkResult {
+	r := JudgeWork(c, wire, serial)
 	if r.Violation == "" || !r.Stall {
 		return r
 	}
 	v, inc := stable(r.Violation, func() string {
-		r2 := JudgeWork(c, wire)
+		r2 := JudgeWork(c, wire, serial)
 		if r2.Violation != "" && !r2.Stall {
 			r = r2
 		}
@@ -374,6 +376,23 @@ func judgeWorkStable(c *WorkCase, wire bool, p string) *WorkResult {
 		r.Violation = v
 	}
 	return r
+}
+
+// canonicalConcurrentOpen is the minimal workload of the known-finding class:
+// eight OpenStream calls started at once on side 0, no data.
+func canonicalConcurrentOpen() *WorkCase {
+	c := &WorkCase{}
+	c.Cfg[0] = MuxCfg{Window: 65535, Buffers: 5, Backlog: 10}
+	c.Cfg[1] = c.Cfg[0]
+	c.PipeCap = 65536
+	for i := 0; i < 8; i++ {
+		sc := StreamScript{Opener: 0}
+		for k := 0; k < 2; k++ {
+			sc.Dir[k] = DirScript{End: "cw", Bufs: []int{100}, StopAfter: -1}
+		}
+		c.Streams = append(c.Streams, sc)
+	}
+	return c
 }
 
 func TestWorkload(t *testing.T) {
@@ -392,9 +411,33 @@ func TestWorkload(t *testing.T) {
 	}
 	rule += "non-trivial: >= 3 streams open at the same time and a receive window smaller than the largest write"
 	rec := ev.New(t, p, "workload", rule)
+	finding, known := ev.KnownClass(p, knownConcurrentOpen)
+	if known {
+		// Canonical instance of the known class: eight streams opened at once
+		// from one side, nothing else. It is a race, so it gets several
+		// executions.
+		reproduced := ""
+		for i := 0; i < 40 && reproduced == ""; i++ {
+			r := JudgeWork(canonicalConcurrentOpen(), true, false)
+			rec.Eval()
+			if strings.Contains(r.Violation, "increasing") {
+				reproduced = r.Violation
+			}
+		}
+		if reproduced != "" {
+			rec.ReportKnown(finding)
+			rec.Note("known_instance", reproduced)
+		} else {
+			rec.Note("known_instance", "canonical instance of "+knownConcurrentOpen+" did not fail in 40 executions")
+			fmt.Printf("NOTE: known finding %s did not reproduce in this run\n", finding.ID)
+		}
+	}
 	ev.Check(t, rec, 250, 4000, func(rt *rapid.T) {
 		c := genWork(rt)
-		r := judgeWorkStable(c, p == "C24", p)
+		if known && c.OverlappingOpens() {
+			rec.Excluded(knownConcurrentOpen)
+		}
+		r := judgeWorkStable(c, p == "C24", known, p)
 		rec.Eval()
 		for _, cl := range r.Classes {
 			rec.Class(cl)
@@ -567,7 +610,7 @@ func TestReplay(t *testing.T) {
 		}
 		// Schedules are not reproducible; give the case a few executions.
 		for i := 0; i < 5; i++ {
-			r := judgeWorkStable(&c, p == "C24", p)
+			r := judgeWorkStable(&c, p == "C24", false, p)
 			if r.Violation != "" {
 				ev.FailTB(t, rec, &c, "%s", r.Violation)
 			}
